@@ -244,11 +244,15 @@ def gen_reduce_case(
     if func in VAR_FAMILY and tape.chance("gen.ddof", 0.3):
         kwargs["finalize_kwargs"] = {"ddof": 1}
     nblocks = len(chunks[-1])
+    by_chunks = None
+    if by_dask and tape.chance("gen.bychunks", 0.3):
+        by_chunks = [gen_chunks(tape, n, "gen.bychunks.c", max_blocks=max_blocks)]  # labels chunked differently from the values
     case = {
         "kind": "reduce",
         "array": enc_array(vals),
         "by": [enc_array(labels)],
         "chunks": chunks,
+        "by_chunks": by_chunks,
         "by_dask": bool(by_dask),
         "kwargs": enc_value(kwargs),
         "knobs": swarm_knobs(tape, nblocks, allow_faults=allow_faults),
